@@ -568,6 +568,7 @@ def roundtrip(R, ctx):
                     for arm in n["arms"]:
                         global_strings.update(x for x in thir.pat_strings(arm["pat"]) if len(x) < 24)
     n_cells = n_rules = 0
+    metadata_lost = {}
     for f in sorted(impls, key=lambda x: x["path"]):
         T = f["path"][1:].split(" as ")[0]
         short = T.split("::")[-1]
@@ -616,9 +617,16 @@ def roundtrip(R, ctx):
                 pe = peval.PEval(lib, ctx.an, hook)
                 try:
                     rule = pe.call_fn(dflt, [])
+                    marked = [x for x in (rule.fields.values() if isinstance(rule, Struct) else []) if isinstance(x, Struct) and x.adt.endswith("::RuleMetadata")]
+                    for x in marked:
+                        x.fields["#mark"] = True        # the file filters given before configure() runs
                     r = pe.call_fn(f, [rule, PyMap([(kk, copy.deepcopy(vv)) for kk, vv in cell])])
                     if not (isinstance(r, Enum) and r.variant == "Ok"):
                         continue  # value refused (or not evaluable): nothing to round-trip
+                    if marked:
+                        now = [x for x in rule.fields.values() if isinstance(x, Struct) and x.adt.endswith("::RuleMetadata")]
+                        if not now or not all(x.fields.pop("#mark", False) for x in now):
+                            metadata_lost.setdefault(short, "%s = %s" % (k, v.fields.get("0")))
                     if pe.unknown_reasons:
                         unk.append((k, v.variant, pe.unknown_reasons[:1]))
                         continue
@@ -642,6 +650,28 @@ def roundtrip(R, ctx):
         R.ob(rid, "%s|roundtrip" % short, not bad, ctx.where(f), "%d accepted (key, value) cells round-trip" % acc if not bad else bad[0])
         R.ob(rid, "%s|established" % short, not unk, ctx.where(f), "all cells evaluate" if not unk else "not established for %s" % (unk[0],), nontrivial=False)
     R.require(rid, "floor", n_rules >= 5 and n_cells >= 20, "", "%d rules with properties, %d accepted cells" % (n_rules, n_cells))
+    # the file filters of a rule object are installed with set_metadata(): where the reader installs them BEFORE it calls configure(),
+    # a configure() that replaces the metadata (e.g. `*self = Self::default()`) loses the filters that were just read
+    rid2 = "C19.metadata"
+    R.rule(rid2, "in the function that builds a rule from its configuration object (the one calling both RuleConfiguration::configure and "
+                 "set_metadata), either the metadata is installed after configure(), or no rule's configure() -- evaluated as for C19.roundtrip, "
+                 "with the metadata marked beforehand -- replaces the metadata it finds: the `apply_to_files` / `skip_files` filters that were "
+                 "read are the ones the rule ends up with")
+    readers = []
+    for g in lib.fn_list:
+        if not thir.body_of(g) or not g["path"].startswith(("rules::", "<")) or "rules" not in g["path"]:
+            continue
+        cs = [c for c in thir.calls(g) if c.get("fname") in ("configure", "set_metadata") and "Rule" in (c.get("trait") or c.get("fn") or "")]
+        conf = [c.get("ln", 0) for c in cs if c.get("fname") == "configure"]
+        meta = [c.get("ln", 0) for c in cs if c.get("fname") == "set_metadata"]
+        if conf and meta:
+            readers.append((g, min(meta) > max(conf)))
+    if R.require(rid2, "anchor:reader", len(readers) >= 1, "", "%d functions call both configure and set_metadata" % len(readers)):
+        for g, after in readers:
+            lost = sorted(metadata_lost.items())
+            R.ob(rid2, "%s|filters-survive-configure" % g["path"].split("::")[-1], after or not lost, ctx.where(g),
+                 "set_metadata follows configure" if after else ("set_metadata precedes configure and no configure() replaces the metadata" if not lost else
+                 "set_metadata precedes configure, and configure() of %s (with %s) replaces the rule's metadata: the filters read from the configuration are lost" % lost[0]))
 
 
 def run(R, ctx):
